@@ -262,3 +262,152 @@ theorem count_insert_le (z : Nat) (dest : Dest) (t : HTree) (L : List HTree) :
     omega
 
 end XotModel
+
+namespace XotModel
+open HTree Spec
+
+/-! ### Lookups through the specification's list functions -/
+
+theorem findList?_replaceTop_insert {z r : Nat} {t : HTree} (hz : find? z t = none) (after : Bool) : ∀ L : List HTree,
+    findList? z (replaceTop r (fun k => if after then [k, t] else [t, k]) L) = findList? z L
+  | [] => rfl
+  | k :: ks => by
+    rw [replaceTop_cons]
+    split
+    · cases after
+      · simp only [Bool.false_eq_true, if_false, List.cons_append, List.nil_append]
+        rw [findList?_cons, hz]; rfl
+      · simp only [if_true, List.cons_append, List.nil_append]
+        rw [findList?_cons, findList?_cons, findList?_cons, hz]; rfl
+    · rw [findList?_cons, findList?_cons, findList?_replaceTop_insert hz after ks]
+
+theorem findList?_insert {z : Nat} {t : HTree} (hz : z ∉ handles t) (dest : Dest) (L : List HTree) :
+    findList? z (dest.insert t L) = findList? z L := by
+  have hzt : find? z t = none := find?_eq_none t hz
+  cases dest with
+  | lastChildOf p =>
+    simp only [Dest.insert, insertLast]
+    rw [findList?_append, findList?_cons, hzt, findList?_nil]
+    cases findList? z L <;> rfl
+  | firstNormalChildOf p =>
+    simp only [Dest.insert]
+    rw [insertFirstNormal_eq, findList?_append, findList?_cons, hzt]
+    have := List.takeWhile_append_dropWhile (p := abn) (l := L)
+    conv => rhs; rw [← this]
+    rw [findList?_append]
+    rfl
+  | after r =>
+    simp only [Dest.insert, insertAfterTop]
+    exact findList?_replaceTop_insert hzt true L
+  | before r =>
+    simp only [Dest.insert, insertBeforeTop]
+    exact findList?_replaceTop_insert hzt false L
+
+/-- Optional merge (consolidation on / off). -/
+def mergeOpt (b : Bool) (keep : Keep) : List HTree → List HTree := if b then mergeRuns keep else id
+
+theorem mergeOpt_sublist (b : Bool) (keep : Keep) (L : List HTree) :
+    (handlesList (mergeOpt b keep L)).Sublist (handlesList L) := by
+  cases b
+  · exact List.Sublist.refl _
+  · exact handlesList_mergeRuns_sublist keep L
+
+theorem findList?_mergeOpt (b : Bool) (keep : Keep) {z : Nat} {L : List HTree}
+    (h : ∀ k ∈ L, k.value.isText = true → k.kids = [] ∧ k.handle ≠ z) :
+    findList? z (mergeOpt b keep L) = findList? z L := by
+  cases b
+  · rfl
+  · exact findList?_mergeRuns keep h
+
+theorem mergeAt_eq_mergeOpt (f : Forest) (keep : Keep) (p : Nat) :
+    f.mergeAt keep (some p) = f.editAt (some p) (mergeOpt f.consolidation keep) := by
+  rw [mergeAt_some]
+  cases hc : f.consolidation
+  · simp only [Bool.false_eq_true, if_false, mergeOpt]
+    exact (Forest.editAt_id f (some p)).symm
+  · simp [mergeOpt]
+
+/-- A node that has a child is not a text leaf of its sibling list. -/
+theorem not_text_leaf_of_parent {f : Forest} {x : Nat} {cx : Ctx} (nd : f.allHandles.Nodup)
+    (hx : f.ctx? x = some cx) {k : HTree} (hk : f.get? k.handle = some k) (hleaf : k.kids = []) :
+    k.handle ≠ cx.parent := by
+  intro e
+  obtain ⟨_, v, e1⟩ := Forest.kids_of_ctx nd hx
+  rw [← e, hk] at e1
+  have := Option.some.inj e1
+  rw [this] at hleaf
+  simp only [HTree.kids] at hleaf
+  cases hl : cx.left <;> rw [hl] at hleaf <;> cases hleaf
+
+end XotModel
+
+namespace XotModel
+open HTree Spec
+
+/-- Dropping a parentless tree that does not hold `x` leaves the context of `x` alone. -/
+theorem ctx_dropRoot {x n : Nat} : ∀ rs : List HTree, (∀ k ∈ rs, k.handle = n → x ∉ handles k) →
+    (dropTop n rs).findSome? (ctxBelow x) = rs.findSome? (ctxBelow x)
+  | [] => fun _ => rfl
+  | k :: ks => by
+    intro h
+    rw [dropTop_cons]
+    have ih := ctx_dropRoot ks (fun k' hk' => h k' (List.mem_cons_of_mem _ hk'))
+    by_cases hk : k.handle = n
+    · rw [if_pos hk, ih, List.findSome?_cons, ctxBelow_of_not_mem k (h k List.mem_cons_self hk)]
+    · rw [if_neg hk, List.findSome?_cons, List.findSome?_cons, ih]
+
+/-- The parentless tree with handle `c` is `t`. -/
+theorem root_is {f : Forest} {c : Nat} {t : HTree} (nd : f.allHandles.Nodup) (hc : f.get? c = some t) :
+    ∀ k ∈ f.roots, k.handle = c → k = t := by
+  intro k hk hkc
+  obtain ⟨A, B, hAB⟩ := List.append_of_mem hk
+  unfold Forest.allHandles at nd
+  rw [hAB] at nd
+  obtain ⟨m1, _⟩ := nodup_mid nd
+  have : f.get? k.handle = some k := by
+    rw [Forest.get?_eq, hAB]
+    exact findList?_mid (m1 _ (handle_mem_handles k))
+  rw [hkc, hc] at this
+  exact (Option.some.inj this).symm
+
+theorem count_dropTop_root {f : Forest} {c : Nat} {t : HTree} (nd : f.allHandles.Nodup) (hc : f.get? c = some t)
+    (hroot : f.isRoot c = true) (z : Nat) :
+    (handlesList (dropTop c f.roots)).count z + (handles t).count z = f.allHandles.count z := by
+  unfold Forest.isRoot at hroot
+  obtain ⟨k, hk, hkc⟩ := List.any_eq_true.1 hroot
+  have hkc' : k.handle = c := by simpa using hkc
+  have hkt := root_is nd hc k hk hkc'
+  subst hkt
+  obtain ⟨A, B, hAB⟩ := List.append_of_mem hk
+  unfold Forest.allHandles at nd ⊢
+  rw [hAB] at nd ⊢
+  obtain ⟨tl, tr⟩ := tops_ne_of_nodup nd
+  rw [dropTop_mid hkc' (fun k' h' => hkc' ▸ tl k' h') (fun k' h' => hkc' ▸ tr k' h'), count_handles_mid]
+
+/-- The second step of a move's frame: inserting `t` into the child list of `q` in `Y` and
+    merging there. -/
+theorem frame_insert_step {Y : Forest} {keep : Keep} {dest : Dest} {t : HTree} {q : Nat} {vq : Value}
+    {LY : List HTree} (sY : SiteAt Y q vq LY)
+    (hcount : ∀ z, Y.allHandles.count z + (handles t).count z ≤ 1)
+    {x : Nat} {cx : Ctx} (hx : Y.ctx? x = some cx) (hne : cx.parent ≠ q)
+    (hleaf : ∀ k ∈ LY, k.value.isText = true → k.kids = [] ∧ k.handle ≠ cx.parent)
+    (hleaft : t.value.isText = true → t.kids = [] ∧ t.handle ≠ cx.parent)
+    (hpt : cx.parent ∉ handles t) :
+    ∃ cx', ((Y.editAt (some q) (dest.insert t)).mergeAt keep (some q)).ctx? x = some cx' ∧ cx'.shape = cx.shape := by
+  rw [mergeAt_eq_mergeOpt, Forest.editAt_consolidation, Forest.editAt_editAt]
+  apply sY.frame _ _ hx hne
+  · simp only [Function.comp]
+    rw [findList?_mergeOpt, findList?_insert hpt]
+    intro k hk hkt
+    cases mem_insert hk with
+    | inl e => rw [e] at hkt ⊢; exact hleaft hkt
+    | inr e => exact hleaf k e hkt
+  · apply sY.nodup_of_count
+    intro z
+    simp only [Function.comp]
+    have h1 := (mergeOpt_sublist Y.consolidation keep (dest.insert t LY)).count_le z
+    have h2 := count_insert_le z dest t LY
+    have h3 := hcount z
+    omega
+
+end XotModel
